@@ -1,13 +1,21 @@
 #!/venv/bin/python
-'''tools/mkmut.py <name> <file-in-repo> <old> <new>  -> /verif/mutants/<name>.diff (repo left clean)'''
+'''tools/mkmut.py <name> <file-in-repo> <old> <new>  -> /verif/mutants/<name>.diff
+Works on a private copy of /repo's working tree; /repo itself is never touched.'''
+import os
+import shutil
 import subprocess
 import sys
+import tempfile
 name, path, old, new = sys.argv[1:5]
-full = '/repo/' + path
-s = open(full).read()
-assert s.count(old) >= 1, 'pattern not found in ' + path
-open(full, 'w').write(s.replace(old, new, 1))
-d = subprocess.run(['git', '-C', '/repo', 'diff'], capture_output=True, text=True).stdout
-subprocess.run(['git', '-C', '/repo', 'checkout', '--', path], check=True)
-open('/verif/mutants/%s.diff' % name, 'w').write(d)
-print(name, len(d.splitlines()), 'lines')
+tree = tempfile.mkdtemp(prefix='mkmut.', dir='/tmp')
+try:
+    subprocess.run(['cp', '-a', '/repo/.', tree + '/'], check=True)
+    full = os.path.join(tree, path)
+    s = open(full).read()
+    assert s.count(old) >= 1, 'pattern not found in ' + path
+    open(full, 'w').write(s.replace(old, new, 1))
+    d = subprocess.run(['git', '-C', tree, 'diff'], capture_output=True, text=True).stdout
+    open('/verif/mutants/%s.diff' % name, 'w').write(d)
+    print(name, len(d.splitlines()), 'lines')
+finally:
+    shutil.rmtree(tree, ignore_errors=True)
